@@ -33,6 +33,19 @@ Theorem C12_ndl_no_collapse : forall x y r,
   attempt_from false true (PSet (x :: y :: r)) = raise_type /\ attempt_from false true (PFrozen (x :: y :: r)) = raise_type.
 Proof. exact ndl_no_collapse. Qed.
 
+(* ... extra tuple items are rejected (Tuple[T1..Tn] given more than n items), and so are unknown keys: Options.__init__ turns
+   no_data_loss into addition=False (checked on the implementation by the flag oracle), under which an unknown key is an error *)
+Theorem C12_ndl_tuple_excess_rejected :
+  forall tr o depth args vals s,
+  o_no_data_loss o = true -> o_collect_errors o = false -> (List.length args < List.length vals)%nat ->
+  exists s' e, parse_tuple_args tr o depth args (PTuple vals) s = (s', Raise e) /\ is_parse_err e = true.
+Proof. exact ndl_tuple_excess_rejected. Qed.
+Theorem C12_unknown_key_rejected :
+  forall C o key v s,
+  o_addition o = Some false -> o_collect_errors o = false -> str_in key (c_exclude_vars C) = false ->
+  exists s' e, parse_addition C o key v s = (s', Raise e) /\ is_parse_err e = true.
+Proof. exact unknown_key_rejected. Qed.
+
 (* no_explicit_cast: a value converts only inside its primitive group (booleans being the numbers 0/1),
    apart from the documented exception Decimal <- str *)
 Theorem C12_nec_same_group : forall ndl u p v w, conv_prim true ndl u p v = Ok w -> nec_allowed p v.
